@@ -21,6 +21,7 @@ open SerfModel.Gen.MergeConfig (table)
 `b` and the merged value `r`. -/
 def Layered : Doc → FieldVal → FieldVal → FieldVal → Prop
   | .laterIfSet, a, b, r => r = if isSet b then b else a              -- later wins when it sets it
+  | .laterIfPositive, a, b, r => r = if isPositive b then b else a    -- Protocol: "sets it" = is positive (TestMergeConfig)
   | .switch, a, b, r => ∃ x y, a = .bool x ∧ b = .bool y ∧ r = .bool (x || y)   -- on if either turns it on
   | .laterAlways, _, b, r => r = b                                    -- compression: from the later source
   | .concat, a, b, r => ∃ x y, a = .list x ∧ b = .list y ∧ r = .list (x ++ y)   -- concatenated in order
@@ -32,20 +33,13 @@ def implementsDoc : Rule → Doc → Kind → Bool
   | .overrideIfNonEmpty, .laterIfSet, .str => true
   | .overrideIfNonZero, .laterIfSet, .int => true
   | .overrideIfNonZero, .laterIfSet, .dur => true
+  | .overrideIfPositive, .laterIfPositive, .int => true
   | .orSwitch, .switch, .bool => true
   | .always, .laterAlways, _ => true
   | .concat, .concat, .list => true
   | .tagsFresh, .combine, .tags => true
   | .tagsInPlace, .combine, .tags => true      -- same VALUES (it fails C31_pure, not this)
   | _, _, _ => false
-
-/-- … or realises it for all values except a negative later number (`if b.X > 0`). -/
-def implementsDocNonNeg (r : Rule) (d : Doc) (k : Kind) : Bool :=
-  implementsDoc r d k || (r == .overrideIfPositive && d == .laterIfSet && (k == .int || k == .dur))
-
-/-- the later source does not carry a negative number in a field merged with `> 0` -/
-def NoNegativeLater (t : List FieldSpec) (b : Config) : Prop :=
-  ∀ fs ∈ t, fs.rule = .overrideIfPositive → ∀ i, get b fs.name = .int i → 0 ≤ i
 
 theorem over_eq_combined (x y : Option Tags) (k : String) :
     over (alookup (y.getD []) k) (alookup (x.getD []) k) = combinedLookup x y k := by
@@ -54,40 +48,29 @@ theorem over_eq_combined (x y : Option Tags) (k : String) :
 
 /-- the general interpreter lemma behind `C31_fieldwise` -/
 theorem mergeVal_layered (r : Rule) (d : Doc) (k : Kind) (a b : FieldVal)
-    (himp : implementsDocNonNeg r d k = true)
-    (hneg : r = .overrideIfPositive → ∀ i, b = .int i → 0 ≤ i)
+    (himp : implementsDoc r d k = true)
     (ha : hasKind k a = true) (hb : hasKind k b = true) :
     Layered d a b (mergeVal r a b) := by
   cases k with
   | str =>
     obtain ⟨x, rfl⟩ := hasKind_str ha; obtain ⟨y, rfl⟩ := hasKind_str hb
-    cases r <;> cases d <;> simp [implementsDocNonNeg, implementsDoc] at himp <;> simp [Layered, mergeVal, isSet]
+    cases r <;> cases d <;> simp [implementsDoc] at himp <;> simp [Layered, mergeVal, isSet]
   | int =>
     obtain ⟨x, rfl⟩ := hasKind_int ha; obtain ⟨y, rfl⟩ := hasKind_int hb
-    cases r <;> cases d <;> simp [implementsDocNonNeg, implementsDoc] at himp <;> simp [Layered, mergeVal, isSet]
-    have := hneg rfl y rfl
-    by_cases hy : y = 0
-    · simp [hy]
-    · have : 0 < y := by omega
-      simp [hy, this]
+    cases r <;> cases d <;> simp [implementsDoc] at himp <;> simp [Layered, mergeVal, isSet, isPositive]
   | dur =>
     obtain ⟨x, rfl⟩ := hasKind_dur ha; obtain ⟨y, rfl⟩ := hasKind_dur hb
-    cases r <;> cases d <;> simp [implementsDocNonNeg, implementsDoc] at himp <;> simp [Layered, mergeVal, isSet]
-    have := hneg rfl y rfl
-    by_cases hy : y = 0
-    · simp [hy]
-    · have : 0 < y := by omega
-      simp [hy, this]
+    cases r <;> cases d <;> simp [implementsDoc] at himp <;> simp [Layered, mergeVal, isSet]
   | bool =>
     obtain ⟨x, rfl⟩ := hasKind_bool ha; obtain ⟨y, rfl⟩ := hasKind_bool hb
-    cases r <;> cases d <;> simp [implementsDocNonNeg, implementsDoc] at himp <;>
+    cases r <;> cases d <;> simp [implementsDoc] at himp <;>
       cases x <;> cases y <;> simp [Layered, mergeVal]
   | list =>
     obtain ⟨x, rfl⟩ := hasKind_list ha; obtain ⟨y, rfl⟩ := hasKind_list hb
-    cases r <;> cases d <;> simp [implementsDocNonNeg, implementsDoc] at himp <;> simp [Layered, mergeVal]
+    cases r <;> cases d <;> simp [implementsDoc] at himp <;> simp [Layered, mergeVal]
   | tags =>
     obtain ⟨x, rfl, hx⟩ := hasKind_tags ha; obtain ⟨y, rfl, hy⟩ := hasKind_tags hb
-    cases r <;> cases d <;> simp [implementsDocNonNeg, implementsDoc] at himp <;> simp only [Layered, mergeVal]
+    cases r <;> cases d <;> simp [implementsDoc] at himp <;> simp only [Layered, mergeVal]
     · exact ⟨x, y, _, rfl, rfl, rfl, fun k => by rw [alookup_mergeTags x y hx hy, over_eq_combined]⟩
     · exact ⟨x, y, _, rfl, rfl, rfl, fun k => by rw [alookup_mergeTagsInPlace x y hy, over_eq_combined]⟩
 
@@ -104,69 +87,34 @@ theorem C31_table_compat : ∀ fs ∈ table, compat fs.rule fs.kind = true := by
 `MsgpackUseNewTimeFormat`, repaired in 8994bad, is rule `none` here.) -/
 theorem C31_no_setting_dropped : ∀ fs ∈ table, (docOf fs).isSome = true → fs.rule ≠ .none := by decide
 
-/-- every setting's statement realises its documented layering, except that a statement of
-the shape `if b.X > 0` does so only for non-negative later values … -/
-theorem C31_table_layering : ∀ fs ∈ table, ∀ d, docOf fs = some d → implementsDocNonNeg fs.rule d fs.kind = true := by
+/-- every setting's statement realises its documented layering for ALL values (`Protocol`:
+`if b.Protocol > 0`, the documented "later wins when positive") -/
+theorem C31_table_layering : ∀ fs ∈ table, ∀ d, docOf fs = some d → implementsDoc fs.rule d fs.kind = true := by
   decide
-
-/-- … and the only such field is `Protocol` (recorded finding `protocol-negative-ignored`). -/
-theorem C31_only_protocol_positive : ∀ fs ∈ table, fs.rule = .overrideIfPositive → fs.name = "Protocol" := by decide
 
 /-- no statement writes through a map of an input (the pre-repair tag merge is `tagsInPlace`) -/
 theorem C31_table_no_inplace : ∀ fs ∈ table, fs.rule ≠ .tagsInPlace := by decide
 
-/-! ## Field-wise layering
+/-! ## Field-wise layering -/
 
-FULL STATEMENT (not provable for the code as it is — see the counterexample):
-
-    theorem C31_fieldwise (a b) (ha : WT table a) (hb : WT table b) :
-      ∀ fs ∈ table, ∀ d, docOf fs = some d →
-        Layered d (get a fs.name) (get b fs.name) (get (merge table a b) fs.name)
-
-`MergeConfig` takes `b.Protocol` only when it is `> 0`, every other number when it is
-`!= 0`; a later source that sets a negative protocol version is silently ignored. -/
-
-theorem C31_fieldwise_partial (a b : Config) (ha : WT table a) (hb : WT table b)
-    (hneg : NoNegativeLater table b) :
+/-- **Every setting** (every field but the `*Raw` twins) of the merged configuration follows its
+documented layering rule, for all configurations: later source wins when it sets it (`Protocol`:
+when positive — by design, see `docOf`), switches or-ed, compression from the later source, tags
+combined with the later source winning, lists concatenated in order. -/
+theorem C31_fieldwise (a b : Config) (ha : WT table a) (hb : WT table b) :
     ∀ fs ∈ table, ∀ d, docOf fs = some d →
       Layered d (get a fs.name) (get b fs.name) (get (merge table a b) fs.name) := by
   intro fs hfs d hd
   rw [get_merge table C31_table_names_nodup a b fs hfs]
-  exact mergeVal_layered fs.rule d fs.kind _ _ (C31_table_layering fs hfs d hd)
-    (fun hr i hi => hneg fs hfs hr i hi) (ha fs hfs) (hb fs hfs)
-
-/-- the same for every field but `Protocol`, with no hypothesis on the values -/
-theorem C31_fieldwise_except_protocol (a b : Config) (ha : WT table a) (hb : WT table b) :
-    ∀ fs ∈ table, fs.name ≠ "Protocol" → ∀ d, docOf fs = some d →
-      Layered d (get a fs.name) (get b fs.name) (get (merge table a b) fs.name) := by
-  intro fs hfs hname d hd
-  rw [get_merge table C31_table_names_nodup a b fs hfs]
-  exact mergeVal_layered fs.rule d fs.kind _ _ (C31_table_layering fs hfs d hd)
-    (fun hr => absurd (C31_only_protocol_positive fs hfs hr) hname) (ha fs hfs) (hb fs hfs)
+  exact mergeVal_layered fs.rule d fs.kind _ _ (C31_table_layering fs hfs d hd) (ha fs hfs) (hb fs hfs)
 
 def exA : Config := (zero table).map fun p => if p.1 == "Protocol" then (p.1, .int 5) else p
 def exB : Config := (zero table).map fun p => if p.1 == "Protocol" then (p.1, .int (-1)) else p
 
-/-- Negation witness: earlier source `Protocol = 5`, later source `Protocol = -1`; the
-merged value is 5, the documented layering gives -1. -/
-theorem C31_fieldwise_counterexample :
-    WT table exA ∧ WT table exB ∧ docOf ⟨"Protocol", .int, .overrideIfPositive⟩ = some .laterIfSet ∧
-    get (merge table exA exB) "Protocol" = .int 5 ∧
-    ¬ Layered .laterIfSet (get exA "Protocol") (get exB "Protocol") (get (merge table exA exB) "Protocol") := by
-  refine ⟨by decide, by decide, by decide, by decide, ?_⟩
-  show ¬ (get (merge table exA exB) "Protocol" =
-    if isSet (get exB "Protocol") then get exB "Protocol" else get exA "Protocol")
-  decide
-
-/-- non-vacuity of the partial theorem: two well-typed configurations satisfying its hypotheses -/
-example : WT table exA ∧ WT table exA ∧ NoNegativeLater table exA := by
-  refine ⟨by decide, by decide, ?_⟩
-  intro fs hfs hr i hi
-  have hn := C31_only_protocol_positive fs hfs hr
-  rw [hn] at hi
-  have : get exA "Protocol" = .int 5 := by decide
-  rw [this] at hi
-  injection hi with hi; omega
+/-- the by-design behaviour TestMergeConfig pins down: a later `Protocol = -1` does not
+override an earlier `Protocol = 5` (and the well-typedness hypotheses are satisfiable) -/
+example : WT table exA ∧ WT table exB ∧ get (merge table exA exB) "Protocol" = .int 5 ∧
+    get (merge table exB exA) "Protocol" = .int 5 := by decide
 
 /-! ## Associativity -/
 
@@ -225,6 +173,35 @@ allocates.  Holds for every heap and all reference-level configurations. -/
 theorem C31_pure (h : Heap) (a b : RConfig) :
     ∀ i, i < h.length → (mergeH table h a b).1[i]? = h[i]? :=
   (mergeHLoop_keeps table C31_table_no_inplace h a b []).2
+
+/-- **The heap view and the value view agree**: over any heap on which the inputs are
+well-formed (every map/slice field is nil or the address of an object of the right sort, every
+other field a scalar), what the heap-level `MergeConfig` returns denotes exactly
+`merge table` of what the inputs denote.  So `C31_pure` is about the same call whose result
+`C31_fieldwise` / `C31_assoc` / `C31_fold` describe. -/
+theorem C31_heap_value_agree (h : Heap) (a b : RConfig)
+    (hin : ∀ fs ∈ table, RefOK h fs.kind (rget a fs.name) ∧ RefOK h fs.kind (rget b fs.name)) :
+    deref table (mergeH table h a b).1 (mergeH table h a b).2 =
+      merge table (deref table h a) (deref table h b) :=
+  mergeH_deref table C31_table_names_nodup h a b
+    (fun fs hfs => ⟨C31_table_compat fs hfs, C31_table_no_inplace fs hfs, (hin fs hfs).1, (hin fs hfs).2⟩)
+
+/-- the all-zero reference-level configuration (nil maps and slices) -/
+def rzero : RConfig := table.map fun fs =>
+  (fs.name, match fs.kind with
+    | .tags | .list => .ref none
+    | k => .scalar (zeroVal k))
+
+/-- non-vacuity: well-formed inputs exist over any heap -/
+example (h : Heap) : ∀ fs ∈ table, RefOK h fs.kind (rget rzero fs.name) ∧ RefOK h fs.kind (rget rzero fs.name) := by
+  intro fs hfs
+  have : rget rzero fs.name = match fs.kind with
+      | .tags | .list => .ref none
+      | k => .scalar (zeroVal k) := by
+    unfold rget rzero
+    rw [alookup_map_rspec _ table C31_table_names_nodup fs hfs]; rfl
+  rw [this]
+  cases fs.kind <;> simp [RefOK]
 
 /-- Regression witness: with the pre-repair statement shape (`tagsInPlace`) the call writes
 `b`'s tags into `a`'s map. -/
